@@ -30,6 +30,8 @@ def check(tier):
     rep = Reporter(PID, tier)
     pvh = build_harness()
     run_family(rep, pvh, "MC_RenderC02_routes.cfg")
+    if tier != "quick":
+        run_family(rep, pvh, "MC_RenderC02_routes3.cfg")       # three transports deep (84 672 routes)
     run_family(rep, pvh, "MC_RenderC02_mapkey.cfg")
     run_family(rep, pvh, "MC_RenderC02_ftparam.cfg")
     run_family(rep, pvh, "MC_RenderC02_chainparam.cfg")
@@ -44,7 +46,8 @@ def check(tier):
                         "truncatewords_html, values Go marked safe",
                         "the observable is the raw marker text (<m<i>&'\">, any letter case); exact output is compared but attributed to C09/C12/C19"]
     return rep.finish(
-        rule="every route source (string, map value, list item, struct field, Stringer, map key) x transport x transport x sink over 18 "
+        rule="(thorough: also binding transport x transport x binding transport, three deep) "
+             "every route source (string, map value, list item, struct field, Stringer, string behind a pointer, map key) x transport x transport x sink over 21 "
              "transports (set, with, for over array literal / context list / characters, macro argument / default / outer name, "
              "concatenation, array literal + first / join, ifchanged, filter tag, if, default filter, autoescape on) and 7 sinks (output, "
              "firstof, cycle, cycle as, include with/plain, concatenated output); every registered filter (minus the opt-outs) with 3 "
